@@ -344,6 +344,7 @@ func c06Rebuild(p *Prog, r *Report) {
 	}
 	r.Floor("R5", "AddFeature calls on remote entities", n, 1)
 	c06Reannounce(p, r, eri)
+	freshFeatureRule(p, r, eri, "R16")
 }
 
 func valueIs(v ssa.Value, c *ssa.Call) bool {
